@@ -4,13 +4,13 @@ HARNESS_FILES = ["verif_poly.rs", "verif_bmoc.rs"]
 P = "nested::verif_poly::"
 MANIFEST = dict(
     category="other",
-    text="Only the structural mechanism that keeps the vertex cells is decided: is_in_list(depth, hash, depth_max, sorted list) is proved equivalent to 'some listed deepest cell is a descendant of (depth, hash)' for every depth_max <= 29, every cell and every sorted list of up to 4 entries (std binary_search included, not stubbed). Polygon::contains, the bounding cone, tightness and flag honesty quantify over spherical geometry (products of trig-derived 3-vectors): no contract within reach of the installed verifiers expresses them -- NOT decided.",
-    note="Bounded in list length (<= 4). The geometric claims of C12 are not decided.",
-    technique="Kani bounded harness (CBMC) on the real is_in_list against its set-theoretic contract",
+    text="The structural half is decided: (1) is_in_list(depth, hash, depth_max, sorted list) is proved equivalent to 'some listed deepest cell is a descendant of (depth, hash)' for every depth_max <= 29, every cell and every sorted list of up to 4 entries (std binary_search included, not stubbed); (2) the real recursion polygon_coverage_recur, with n_vertices_in_poly / has_intersection replaced by ARBITRARY answers over a 2-level tree and the builder by its verified tracker contract, keeps every listed vertex cell (partial) whatever the predicates answer, marks a cell full only when its 4 vertices were reported inside, descends / keeps a partial cell iff a vertex is inside or an edge intersects, drops it otherwise, and pushes cells in strictly increasing disjoint order (well-formedness, C09). Polygon::contains, the bounding cone, tightness and flag honesty quantify over spherical geometry (products of trig-derived 3-vectors): no contract within reach of the installed verifiers expresses them -- NOT decided.",
+    note="Bounded in list length (<= 4 for is_in_list, <= 2 in the recursion) and recursion depth difference (<= 2). The geometric claims of C12 are not decided.",
+    technique="Kani bounded harnesses (CBMC) on the real is_in_list against its set-theoretic contract and on the real polygon_coverage_recur against its descent contract (geometric predicates as arbitrary-answer stubs, builder as contract stub)",
 )
-EXPLANATION = "List length is the bound; contents, depths and the queried cell are fully symbolic."
-ASSUMPTIONS = ["geometric claims of C12 (point-in-polygon, tightness, full-flag honesty, bounding cone) NOT decided", "polygon_coverage_recur's use of is_in_list is read, not verified (Vec/closures/libm)"]
-TRUSTED_BASE = ["Kani 0.68 / CBMC 6.11"]
+EXPLANATION = "List length and depth difference are the bounds; list contents, the queried cell, the root cell and every geometric answer are fully symbolic."
+ASSUMPTIONS = ["geometric claims of C12 (point-in-polygon, tightness, full-flag honesty, bounding cone) NOT decided", "n_vertices_in_poly / has_intersection answers are arbitrary in the recursion units (their geometry is not verified)", "polygon_coverage's construction of the start cells and of the vertex-cell list (bounding cone, hashs, sort) is read, not verified"]
+TRUSTED_BASE = ["Kani 0.68 / CBMC 6.11", "ghost builder tracker (C08)"]
 def units():
     rec = [Unit(nm, P + nm, ["Layer::polygon_coverage_recur", "is_in_list", "(arbitrary-answer stubs) n_vertices_in_poly, has_intersection", "(contract stub) BMOCBuilderUnsafe::{new,push}"],
                 "polygon descent contract, depth difference %d, %d listed vertex cells, EVERY assignment of the geometric answers: vertex cells are kept (partial) whatever the predicates say; full only when all 4 vertices are in the polygon; partial/descend when some vertex is in or an edge intersects; dropped otherwise; pushes ordered" % (dl, nl),
